@@ -152,7 +152,7 @@ class C15(Property):
             'over a small grid of parameter values (valid and invalid); 1500 more seeded random sessions and 500 such pairs; seeded random dyadic parameter sets whose float '
             'arithmetic is exact (run on the Float and on the exact Rat instance of the model); float sets with stop '
             'placed 0..2 ulps around start*factor^k (default-count edges); adversarial magnitudes (subnormal start, '
-            'overflowing products, factor 1+ulp, start 0 with stop <= 1, extreme draws). Non-trivial = valid parameters '
+            'overflowing products, factor 1+ulp, start 0 with stop <= 1, extreme draws); every boundary / ulp-edge / adversarial call whose parameters are finite with a clear sign bit is also run on the D instance of the model (B64, the natural-number model of binary64 arithmetic the b64_* theorems are about). What is compared with the model: un-jittered values bit for bit (zeros without sign), exception classes (any ValueError subclass is a ValueError; raised at the call or at the first next()), StopIteration; of a call with jitter the number of values and, value by value, membership in the statement\'s interval around the model\'s own un-jittered delay (the driver is told the observed values), plus the same call with jitter off bit for bit; of a count=None call the values, its length being accepted when at least the minimal default count (the statement fixes the last value, not the length); count=None with factor exactly 1 is oracle-only. Non-trivial = valid parameters '
             'whose un-jittered sequence has a growth step and reaches the cap (a session: at least two calls, one of them non-trivial); distinct = distinct parameter tuples / operation lists.')
     ASSUMPTIONS = [
         'start/stop/factor/jitter are finite doubles (ints that are exactly representable are also passed as int/bool); '
@@ -161,16 +161,23 @@ class C15(Property):
         '(module body executed again), so a reported failing input fails on its own; state kept by OTHER modules across '
         'calls would only be seen within one session',
         'on floats "grows by exactly factor" is read as one multiplication per step, accepted within 4 ulp by the oracle '
-        '(the model correspondence is bit-exact); jitter bounds are accepted within 4 ulp of the larger bound',
+        '(the model correspondence is bit-exact for un-jittered values); jitter bounds are accepted within 4 ulp of the '
+        'larger bound (2^-50 relative + 4 smallest subnormals), by the oracle and by the driver\'s acceptance test alike',
+        'the random source handed to the module is a random.Random whose random() returns the scripted draws (all other '
+        'drawing functions derive from it, other attributes are the real module\'s); how many draws a value consumes and '
+        'which function draws them is not compared',
         'default count: the last-value-is-stop clause is demanded where stepping makes progress (factor > 1 and start '
         'either 0 or a normal double); for factor == 1 with count None the statement is silent (any exception before '
         'the first value, or values of the right shape, are accepted), for subnormal start a ValueError before the '
-        'first value is accepted as well',
+        'first value is accepted as well - but only when stepping by one IEEE multiplication really stops making progress '
+        'below stop (simulated independently by the oracle)',
         'Lean Float arithmetic (compiled C double operations, SSE2) is the IEEE-754 arithmetic CPython uses',
-        'the order-layer theorems apply to doubles under the usual reading: finite doubles are linearly ordered and '
-        'x <= fl(x * factor) for factor >= 1, x >= 0 (rounding is monotone); Lean cannot prove facts about Float',
+        'the order-layer theorems apply to doubles through B64, a natural-number model of non-negative binary64 numbers with '
+        'the correctly rounded product, for which linear order and x <= fl(x * factor) for factor >= 1 are PROVED '
+        '(b64_mul_ge); that B64.mul is the multiplication CPython performs is validated bit for bit by the D instance of the '
+        'correspondence, not proved (Lean cannot prove facts about its opaque Float)',
     ]
-    CORRESPONDENCE_NAME = 'C15.Driver (backoffIter/backoff model, Float and Rat instances) vs boltons.iterutils.backoff_iter/backoff'
+    CORRESPONDENCE_NAME = 'C15.Driver (backoffIter/backoff model; Float, Rat and B64 instances; jittered values by acceptance) vs boltons.iterutils.backoff_iter/backoff'
 
     # ------------------------------------------------------------------ generation
     def mk(self, fn, start, stop, count, factor, jitter=0.0, draws=(), take=0, inst='F', py=False):
